@@ -103,6 +103,95 @@ theorem position_at_an_end_is_hit (tol r lat1 lon1 lat2 lon2 : ℝ) :
     show distanceHav _ _ _ _ ≤ hav (tol / r)
     rw [hz]; exact hav_nonneg _
 
+/-- a position on the great circle of the line (zero bearing difference seen from the first end)
+    has zero cross-track term -/
+theorem on_the_great_circle_track_zero (p0 l0 p1 l1 p2 l2 : ℝ)
+    (h : sinDeltaBearing p1 l1 p2 l2 p0 l0 = 0) : (onLineQ p0 l0 p1 l1 p2 l2).track = 0 := by
+  show havSin (sinHav (distanceHav p0 l0 p1 l1) * sinDeltaBearing p1 l1 p2 l2 p0 l0) = 0
+  rw [h]
+  simp [havSin, half]
+
+/-- **on the line itself**: a position on the line's great circle that is no farther from either end
+    than the ends are from each other — i.e. between them — is on the line for EVERY tolerance,
+    zero included (lines shorter than ~118°, which is every line the property speaks about) -/
+theorem on_the_segment_is_hit (tol r lat0 lon0 lat1 lon1 lat2 lon2 : ℝ)
+    (hgc : sinDeltaBearing (lat1 * radians) (lon1 * radians) (lat2 * radians) (lon2 * radians)
+      (lat0 * radians) (lon0 * radians) = 0)
+    (h1 : distanceHav (lat0 * radians) (lon0 * radians) (lat1 * radians) (lon1 * radians) ≤
+      distanceHav (lat1 * radians) (lon1 * radians) (lat2 * radians) (lon2 * radians))
+    (h2 : distanceHav (lat0 * radians) (lon0 * radians) (lat2 * radians) (lon2 * radians) ≤
+      distanceHav (lat1 * radians) (lon1 * radians) (lat2 * radians) (lon2 * radians))
+    (hshort : distanceHav (lat1 * radians) (lon1 * radians) (lat2 * radians) (lon2 * radians) < 74 / 100) :
+    onLine tol r lat0 lon0 lat1 lon1 lat2 lon2 = true := by
+  have htr := on_the_great_circle_track_zero _ _ _ _ _ _ hgc
+  unfold onLine
+  generalize hq : onLineQ (lat0 * radians) (lon0 * radians) (lat1 * radians) (lon1 * radians)
+    (lat2 * radians) (lon2 * radians) = q at htr
+  have hd01 : q.d01 = distanceHav (lat0 * radians) (lon0 * radians) (lat1 * radians) (lon1 * radians) := by
+    rw [← hq]; rfl
+  have hd02 : q.d02 = distanceHav (lat0 * radians) (lon0 * radians) (lat2 * radians) (lon2 * radians) := by
+    rw [← hq]; rfl
+  have hd12 : q.d12 = distanceHav (lat1 * radians) (lon1 * radians) (lat2 * radians) (lon2 * radians) := by
+    rw [← hq]; rfl
+  have hterm : q.term = q.d12 := by
+    have : q.term = q.d12 + q.track * (one - two * q.d12) := by rw [← hq]; rfl
+    rw [this, htr]; simp
+  have hbig : q.bigSegment = false := by
+    have : q.bigSegment = !(RealLike.lt q.d12 (RealLike.ofDec 74 2)) := by rw [← hq]; rfl
+    rw [this, hd12]
+    simp only [rl_lt, rl_ofDec]
+    simp
+    have e : ((74 : ℝ) / 10 ^ 2) = 74 / 100 := by norm_num
+    rw [e]; exact hshort
+  have hnn : 0 ≤ hav (tol / r) := hav_nonneg _
+  unfold onLineDecide
+  simp only [rl_le, htr, hterm, hbig, hd01, hd02, hd12, h1, h2, hnn, decide_true, Bool.not_true,
+    Bool.or_self, Bool.false_eq_true, if_false, Bool.not_false, if_true]
+  split <;> simp_all
+
+/-- … and beyond an end it is not: a position on the line's great circle that is farther from the
+    first end than the line is long (beyond the second end), and farther than the tolerance from
+    both ends, is never on the line — whatever its cross-track term (zero) says -/
+theorem beyond_the_end_is_miss (tol r lat0 lon0 lat1 lon1 lat2 lon2 : ℝ)
+    (hgc : sinDeltaBearing (lat1 * radians) (lon1 * radians) (lat2 * radians) (lon2 * radians)
+      (lat0 * radians) (lon0 * radians) = 0)
+    (hbeyond : distanceHav (lat1 * radians) (lon1 * radians) (lat2 * radians) (lon2 * radians) <
+      distanceHav (lat0 * radians) (lon0 * radians) (lat1 * radians) (lon1 * radians))
+    (hf1 : hav (tol / r) < distanceHav (lat0 * radians) (lon0 * radians) (lat1 * radians) (lon1 * radians))
+    (hf2 : hav (tol / r) < distanceHav (lat0 * radians) (lon0 * radians) (lat2 * radians) (lon2 * radians)) :
+    onLine tol r lat0 lon0 lat1 lon1 lat2 lon2 = false := by
+  have htr := on_the_great_circle_track_zero _ _ _ _ _ _ hgc
+  unfold onLine
+  generalize hq : onLineQ (lat0 * radians) (lon0 * radians) (lat1 * radians) (lon1 * radians)
+    (lat2 * radians) (lon2 * radians) = q at htr
+  have hd01 : q.d01 = distanceHav (lat0 * radians) (lon0 * radians) (lat1 * radians) (lon1 * radians) := by
+    rw [← hq]; rfl
+  have hd02 : q.d02 = distanceHav (lat0 * radians) (lon0 * radians) (lat2 * radians) (lon2 * radians) := by
+    rw [← hq]; rfl
+  have hd12 : q.d12 = distanceHav (lat1 * radians) (lon1 * radians) (lat2 * radians) (lon2 * radians) := by
+    rw [← hq]; rfl
+  have hterm : q.term = q.d12 := by
+    have : q.term = q.d12 + q.track * (one - two * q.d12) := by rw [← hq]; rfl
+    rw [this, htr]; simp
+  have hnn : 0 ≤ hav (tol / r) := hav_nonneg _
+  unfold onLineDecide
+  simp only [rl_le, htr, hterm, hd01, hd02, hd12, not_le.mpr hf1, not_le.mpr hf2, not_le.mpr hbeyond, hnn,
+    decide_false, decide_true, Bool.false_eq_true, if_false, Bool.not_true, Bool.not_false, Bool.true_or, if_true]
+
+/-- non-vacuity of the premise: along the equator (radians), a position between two ends less than
+    half a turn apart is on the line's great circle -/
+theorem equator_on_great_circle (l0 l1 l2 : ℝ) (h01 : 0 < l0 - l1) (h01' : l0 - l1 < π)
+    (h21 : 0 < l2 - l1) (h21' : l2 - l1 < π) : sinDeltaBearing 0 l1 0 l2 0 l0 = 0 := by
+  have ha : 0 < Real.sin (l0 - l1) := Real.sin_pos_of_pos_of_lt_pi h01 h01'
+  have hc : 0 < Real.sin (l2 - l1) := Real.sin_pos_of_pos_of_lt_pi h21 h21'
+  unfold sinDeltaBearing
+  simp only [rl_sin, rl_cos, rl_sub, rl_mul, Real.sin_zero, Real.cos_zero, sub_self, mul_one,
+    mul_zero, zero_mul, add_zero, zero, one, two, rl_ofNat, Nat.cast_zero, rl_le, rl_div, rl_sqrt]
+  have hden : ¬ (Real.sin (l0 - l1) * Real.sin (l0 - l1) * (Real.sin (l2 - l1) * Real.sin (l2 - l1)) ≤ 0) := by
+    have : 0 < Real.sin (l0 - l1) * Real.sin (l0 - l1) * (Real.sin (l2 - l1) * Real.sin (l2 - l1)) := by positivity
+    linarith
+  simp [hden]
+
 /-- positions whose cross-track term exceeds the tolerance and that are outside both end caps are
     never on the line -/
 theorem far_cross_track (tol : ℝ) (q : OnLineQ ℝ) (h1 : tol < q.d01) (h2 : tol < q.d02) (h3 : tol < q.track) :
